@@ -623,7 +623,7 @@ func (g *gWorkspace) genField(f *gFile, m *gMsg, num int, vis []typeInfo, inOneo
 			if f.Syntax == "editions" && r.Chance(0.2) {
 				fl.Opts = append(fl.Opts, "features.message_encoding = "+vlib.Pick(r, []string{"DELIMITED", "LENGTH_PREFIXED"}))
 			}
-			if r.Chance(0.1) {
+			if r.Chance(0.1) && len(fl.Opts) == 0 {
 				fl.Opts = append(fl.Opts, "lazy = true")
 			}
 		}
@@ -1083,9 +1083,12 @@ func genWorkspace(rng *vlib.RNG, n int) *gWorkspace {
 			f.Msgs = append(f.Msgs, m)
 			local = append(local, collectTypesMsg(m, f)...)
 		}
-		if wktTimestamp && len(f.Msgs) > 0 {
-			m := f.Msgs[0]
-			m.Fields = append(m.Fields, &gField{Label: map[string]string{"proto2": "optional"}[f.Syntax], Type: "google.protobuf.Timestamp", Kind: "message", Name: g.name("f"), Num: 18000 + i})
+		if wktTimestamp {
+			tm := &gMsg{Name: g.name("Ts"), file: f}
+			tm.Full = join(f.Pkg, tm.Name)
+			tm.Fields = append(tm.Fields, &gField{Label: map[string]string{"proto2": "optional"}[f.Syntax], Type: "google.protobuf.Timestamp", Kind: "message", Name: g.name("f"), Num: 1})
+			f.Msgs = append(f.Msgs, tm)
+			local = append(local, typeInfo{Full: tm.Full, Msg: tm, file: f})
 		}
 		if fileImplicit {
 			for _, m := range f.Msgs {
